@@ -364,4 +364,71 @@ def check_text_rewrites(ctx, tree, cls):
                     f'(result `{bad[1]}`): a rewrite of the text after constants were inlined changes the constants it touches') if bad else '',
                    file=RENDER, line=st.lineno, witness="Constant('line1\nline2')")
     ctx.setcount('text_rewrite_steps', nsteps)
+    check_number_printer(ctx)
+    check_negative_operand(ctx, tree, cls)
+
+
+def check_number_printer(ctx):
+    """Constant.get_string interpreted on numeric / boolean / NULL values: the text must be one literal of the library's own lexer that converts back to the value."""
+    from ..lexmodel import master_for
+    enc, steps, site = C04.encoder_model(ctx)
+    master = master_for(load_dialect(ctx.src, 'mindsdb').lexer)
+    values = [0, 7, -1, 10 ** 20, 1.5, -2.25, 0.1, 1e-07, -3.5e-09, 1.5e+300, 1e+16, 123456789.123, True, False]
+    ctx.setcount('number_probes', len(values))
+    for v in values:
+        text = enc(v)
+        body = text[1:].lstrip() if text.startswith('-') else text
+        toks = master.types(body)
+        ok = False
+        if isinstance(v, bool):
+            ok = toks in (['TRUE'], ['FALSE']) and (body.upper() == 'TRUE') == v
+        elif toks in (['INTEGER'], ['FLOAT']):
+            try:
+                back = (int(body) if toks == ['INTEGER'] else float(body)) * (-1 if text.startswith('-') else 1)
+                ok = back == v
+            except ValueError:
+                ok = False
+        ctx.ob('C07.number-printer', repr(v), ok,
+               f'Constant({v!r}) prints `{text}`, which the library\'s lexer reads as {toks} - not one numeric literal denoting the value (e.g. exponent notation is '
+               f'an integer, an identifier and a subtraction)', file=site[0], line=site[1], witness=f'Constant({v!r}).to_string()')
+
+
+def check_negative_operand(ctx, tree, cls):
+    """`-` applied to a literal: the rendered text must not put two minus signs next to each other (`--` starts a comment).  The UnaryOperation branch of
+    to_expression is interpreted with stand-ins for SQLAlchemy elements that record how a negative literal is combined with the sign."""
+    from ..interp import Interp, Obj, Raised, Env
+    te = next((m for m in cls.body if isinstance(m, ast.FunctionDef) and m.name == 'to_expression'), None)
+    ctx.need(te is not None, 'to_expression not found')
+    methods = {'SqlalchemyRender': {m.name: m for m in cls.body if isinstance(m, ast.FunctionDef)}}
+
+    class Elem:
+        def __init__(self, text, grouped=False):
+            self.text, self.grouped = text, grouped
+
+        def __neg__(self):
+            return Elem('-' + self.text)
+
+        def __invert__(self):
+            return Elem('NOT ' + self.text)
+
+        def label(self, a):
+            return Elem(self.text, self.grouped)
+    for v in (-1, -2.5, 3):
+        node = Obj('UnaryOperation', op='-', args=[Obj('Constant', value=v, alias=None, parentheses=False)], alias=None, parentheses=False)
+        stubs = {'sa.literal': lambda it, x: Elem(repr(x)), 'sa.sql.elements.Grouping': lambda it, x: Elem('(' + x.text + ')', True), 'Grouping': lambda it, x: Elem('(' + x.text + ')', True),
+                 'self.get_alias': lambda it, a: a, 'sa.literal_column': lambda it, x: Elem(str(x)), 'sa.text': lambda it, x: Elem(str(x))}
+        it = Interp({'UnaryOperation': {'Operation'}, 'Constant': set()}, stubs, methods=methods)
+        # python operators on the stand-in element
+        it.stubs['getattr'] = lambda itp, o, name, *d: (getattr(o, name) if isinstance(o, Elem) else (o.attrs[name] if isinstance(o, Obj) and name in o.attrs else d[0]))
+        try:
+            res = it.call_function(te, [Obj('SqlalchemyRender', dialect=Obj('Dialect', name='postgresql')), node], {}, Env())
+        except Raised as r:
+            if r.exc_name == 'NotImplementedError':
+                ctx.ob('C07.negative-operand', repr(v), True)
+                continue
+            raise AnalysisError(f'to_expression raises {r.exc_name} on -({v})')
+        text = res.text if isinstance(res, Elem) else str(res)
+        ctx.ob('C07.negative-operand', repr(v), '--' not in text,
+               f'`-({v})` is rendered as `{text}`: two adjacent minus signs start a comment in postgres / sqlite / standard SQL, the rest of the statement disappears',
+               file=RENDER, line=te.lineno, witness='select -(-1) from t')
 
